@@ -15,6 +15,9 @@ import (
 
 var ErrServerStopped = errors.New("server already stopped")
 
+// maxBatchSizeHint bounds the capacity allocated up front for a batch announced by the UDF.
+const maxBatchSizeHint = 1 << 16
+
 type Diagnostic interface {
 	Error(msg string, err error, ctx ...keyvalue.T)
 
@@ -697,8 +700,13 @@ func (s *Server) handleResponse(response *agent.Response) error {
 		s.diag.Error("received error message", errors.New(msg.Error.Error))
 		return errors.New(msg.Error.Error)
 	case *agent.Response_Begin:
+		// The size is only a capacity hint and it comes from the peer: never let it size an allocation unchecked.
+		size := msg.Begin.Size
+		if size < 0 || size > maxBatchSizeHint {
+			size = 0
+		}
 		s.begin = msg.Begin
-		s.points = make([]edge.BatchPointMessage, 0, msg.Begin.Size)
+		s.points = make([]edge.BatchPointMessage, 0, size)
 	case *agent.Response_Point:
 		if s.points != nil {
 			bp := edge.NewBatchPointMessage(
@@ -734,6 +742,11 @@ func (s *Server) handleResponse(response *agent.Response) error {
 			}
 		}
 	case *agent.Response_End:
+		if s.begin == nil {
+			err := errors.New("received end batch message without a begin batch message")
+			s.diag.Error("received unexpected message", err)
+			return err
+		}
 		begin := edge.NewBeginBatchMessage(
 			msg.End.Name,
 			msg.End.Tags,
@@ -754,7 +767,11 @@ func (s *Server) handleResponse(response *agent.Response) error {
 		s.begin = nil
 		s.points = nil
 	default:
-		panic(fmt.Sprintf("unexpected response message %T", msg))
+		// A peer can send anything (for example an empty frame decodes to a response without a message):
+		// that is an error of this UDF, not a reason to take the whole process down.
+		err := fmt.Errorf("unexpected response message %T", msg)
+		s.diag.Error("received unexpected message", err)
+		return err
 	}
 	return nil
 }
